@@ -209,7 +209,7 @@ def run_case(spec):
     from vf.drive import session
     r = session.run(spec, obs='light')
     vios, flags = check_run(spec, r)
-    if r['error'] and r['error']['type'] not in ('InsufficientMargin', 'InsufficientBalance', 'InvalidStrategy', 'OrderNotAllowed'):
+    if r['error'] and r['error']['type'] not in ('InsufficientMargin', 'InsufficientBalance', 'InvalidStrategy', 'OrderNotAllowed', 'Watchdog'):
         vios.append((f"C10:session-raised-{r['error']['type']}", r['error']['msg'][:300] + r['error']['tb'][-300:]))
     return vios, flags, r
 
